@@ -12,6 +12,7 @@
 import Cello.Text
 import CelloGen.Text
 import CelloProofs.Lemmas.Text
+import CelloProofs.Lemmas.TextFloat
 import CelloProofs.Lemmas.TextSeq
 
 namespace Cello.Text
@@ -79,46 +80,74 @@ theorem C15_int_roundtrip_ld (n : Int) (hn : -(2 ^ 63 : Int) ≤ n ∧ n < 2 ^ 6
     omega
 
 /-- **C15 for sequences (T1), String and File alike, every start position.**  Let `its` be any sequence of Strings, Ints
-    (shown with `%$`, `%li` or `%ld`) and separators inside the contract (`contractOK`: NUL-free strings, 64-bit integers,
-    separators without `%`; a number is not followed by text that continues it; a separator read from a File that ends in
-    white space is not followed by white space), written by `print_to_with` at the end of a sink holding any bytes `pre`
-    (start position `pre.length`), and let any text `z` follow.  Then
+    (shown with `%$`, `%li` or `%ld`), Floats (`%$`, `%lf`) and separators inside the contract (`contractOK`: NUL-free strings,
+    64-bit integers, finite doubles, separators without `%`; a number is not followed by text that continues it; a separator
+    read from a File that ends in white space is not followed by white space), written by `print_to_with` at the end of a sink
+    holding any bytes `pre` (start position `pre.length`), and let any text `z` follow.  Then
     * the sink holds `pre` followed by exactly the concatenation of the items' texts and the writer returns the start
       position plus the number of characters written;
-    * `scan_from_with` started at the same position returns exactly the values written, in order;
+    * `scan_from_with` started at the same position stores, in order, exactly the values written — for a Float the double
+      nearest to the six-decimal text written (`reparse`; how close that is to the original is libc's `%f`/`%lf`, see
+      `C15_float_value_statement`);
     * it returns the same position the writer returned, and a File's stream has moved by exactly the characters written. -/
 theorem C15_sequence_roundtrip (k : Kind) (pre : List Nat) (its : List Item) (z : List Nat)
-    (hc : contractOK srcCfg k its z = true) (hnf : ∀ it ∈ its, it.isFloat = false) :
+    (hc : contractOK srcCfg k its z = true) :
     let text := its.flatMap (Item.text srcCfg)
     let inp : Input := { kind := k, text := pre ++ text ++ z, cur := pre.length }
     printItems srcCfg { kind := k, data := pre } pre.length its = ({ kind := k, data := pre ++ text }, pre.length + text.length) ∧
     scanItems srcCfg inp pre.length (its.map Item.shape)
-      = (its.filterMap Item.val?, .ok (inp.adv text.length, pre.length + text.length)) := by
+      = (its.filterMap Item.readBack, .ok (inp.adv text.length, pre.length + text.length)) := by
   intro text inp
   constructor
   · exact printItems_at_end srcCfg its { kind := k, data := pre }
-  · apply scanItems_text srcCfg (tables_of_ok _ C15_tables.1) C15_tables.2 k its z inp pre.length rfl hc hnf
+  · apply scanItems_text srcCfg (tables_of_ok _ C15_tables.1) C15_tables.2 k its z inp pre.length rfl hc
     cases k <;> simp [inp, text, Input.view, List.append_assoc]
+
+/-- … and for sequences of Strings and Ints the values stored are exactly the values written -/
+theorem C15_sequence_values_exact (k : Kind) (pre : List Nat) (its : List Item) (z : List Nat)
+    (hc : contractOK srcCfg k its z = true) (hnf : ∀ it ∈ its, it.isFloat = false) :
+    (scanItems srcCfg { kind := k, text := pre ++ its.flatMap (Item.text srcCfg) ++ z, cur := pre.length } pre.length
+      (its.map Item.shape)).1 = its.filterMap Item.val? := by
+  rw [(C15_sequence_roundtrip k pre its z hc).2, filterMap_readBack_eq_val its hnf]
 
 /-- a File's stream after the read is at start + number of characters written; a String has no stream -/
 theorem C15_file_stream_position (pre text z : List Nat) :
     (({ kind := .file, text := pre ++ text ++ z, cur := pre.length } : Input).adv text.length).cur = pre.length + text.length := by
   simp [Input.adv]
 
-/-- **A value alone** (`show_to` / `look_from` of one String or Int) at any start position of a String or a File, whatever
-    follows it (for an Int: anything that does not continue the number): the value comes back and the reader returns the
-    position the writer returned. -/
+/-- **A value alone** (`show_to` / `look_from` of one String, Int or Float) at any start position of a String or a File,
+    whatever follows it (for a number: anything that does not continue it): the value comes back (`readBack`: for a Float, the
+    double nearest to the text written) and the reader returns the position the writer returned. -/
 theorem C15_single_value (k : Kind) (pre : List Nat) (v : Val) (z : List Nat)
-    (hv : (Item.shw v).valid = true) (hs : (Item.shw v).safe k z = true) (hf : (Item.shw v).isFloat = false) :
+    (hv : (Item.shw v).valid = true) (hs : (Item.shw v).safe k z = true) :
     let text := (Item.shw v).text srcCfg
     let inp : Input := { kind := k, text := pre ++ text ++ z, cur := pre.length }
     printItem srcCfg { kind := k, data := pre } pre.length (.shw v) = ({ kind := k, data := pre ++ text }, pre.length + text.length) ∧
-    scanItem srcCfg inp pre.length (Item.shw v).shape = (some v, .ok (inp.adv text.length, pre.length + text.length)) := by
+    scanItem srcCfg inp pre.length (Item.shw v).shape = ((Item.shw v).readBack, .ok (inp.adv text.length, pre.length + text.length)) := by
   intro text inp
   constructor
   · exact printItem_at_end srcCfg { kind := k, data := pre } (.shw v)
-  · apply scanItem_text srcCfg (tables_of_ok _ C15_tables.1) C15_tables.2 k (.shw v) z inp pre.length rfl hv hs hf
+  · apply scanItem_text srcCfg (tables_of_ok _ C15_tables.1) C15_tables.2 k (.shw v) z inp pre.length rfl hv hs
     cases k <;> simp [inp, text, Input.view, List.append_assoc]
+
+/-- **Float, position part (T2).**  For every double and every following text that starts neither with a digit nor with `e`/`E`:
+    scanf's `%lf` applied to what `%f` printed consumes exactly that text, and the value it stores does not depend on what follows. -/
+theorem C15_float_consumed (bits : Nat) (rest : List Nat)
+    (hd : ∀ b r, rest = b :: r → ¬(48 ≤ b ∧ b ≤ 57) ∧ b ≠ 101 ∧ b ≠ 69) :
+    scanDouble (printF bits ++ rest) = .ok (reparse bits, rest) := by
+  apply scanDouble_printF
+  cases rest with
+  | nil => rfl
+  | cons b r =>
+    have := hd b r rfl
+    simp only [fltSafe, headIs, isDigit, Bool.not_eq_true', Bool.or_eq_false_iff, Bool.and_eq_false_iff, decide_eq_false_iff_not,
+      Nat.not_le, beq_eq_false_iff_ne]
+    omega
+
+/-- **Float, value part — NOT proved** (the conversions are libc's; `printF` / `scanDouble` are exact executable models of them that
+    are compared with the implementation on every run, and the driver evaluates this very statement on every Float it sees):
+    the double read back prints as the same six-decimal text, i.e. it is equal to the original within the printed precision. -/
+def C15_float_value_statement : Prop := ∀ bits, fFinite bits = true → printF (reparse bits) = printF bits
 
 /-! ## non-vacuity -/
 
